@@ -417,7 +417,13 @@ def check_one(pl):
             got = EvaluationMapper(env)(tree)
         except Exception as ex:   # noqa: BLE001
             got = ex
-        if isinstance(got, Exception) or not same(want, got, pl[0] in LOGICAL):
+        # `not_` denotes `not x`: a bool on both sides, compared exactly (True is not 5);
+        # `and_` / `or_`: Python returns an OPERAND, the node a truth value: truth only
+        if pl[0] == "not" and not isinstance(got, Exception):
+            bad = not (isinstance(got, bool) and got == want)
+        else:
+            bad = isinstance(got, Exception) or not same(want, got, pl[0] in ("and", "or"))
+        if bad:
             shown = {k: env[k] for k in ("i", "j", "k")}
             return shown, want, got, tree
     return None
